@@ -160,12 +160,16 @@ func (g *docGen) intVal(s *Src) JV {
 		whi = hi
 	}
 	if whi < wlo {
-		wlo = lo
+		// the admissible range does not meet the small window: stay next to the explicit bound
 		span := uint64(hi) - uint64(lo)
 		if span > 1000 {
 			span = 1000
 		}
-		whi = lo + int64(span)
+		if s.Lo == nil && s.Hi != nil {
+			wlo, whi = hi-int64(span), hi
+		} else {
+			wlo, whi = lo, lo+int64(span)
+		}
 	}
 	return jInt(wlo + int64(g.r.intn(int(whi-wlo)+1)))
 }
@@ -437,11 +441,11 @@ var coreFaultKinds = []string{"undeclaredKey", "missingRequired", "nullRequired"
 
 type faultSite struct {
 	cueOK bool
-	kind string
-	path []pathEl // node to operate on
-	op   byte     // 's' replace node, 'd' delete key from object at path, 'a' add key to object at path
-	key  string
-	val  JV
+	kind  string
+	path  []pathEl // node to operate on
+	op    byte     // 's' replace node, 'd' delete key from object at path, 'a' add key to object at path
+	key   string
+	val   JV
 }
 
 func (g *docGen) faultSites(ty *Src, node *JV, path []pathEl, skipField string, out *[]faultSite) {
